@@ -291,7 +291,9 @@ class Use:
                 region = f.region.replace('this', this or 'this', 1) if f.region.startswith('this') else f.region
                 ct_ = parse_type_str('float' if f.kind == 'real' else 'unsigned int')
                 k_ = State.fresh('k!pre', z3.IntSort())
-                f = f.fn(cx, k_, z3.Select(st.array(region, f.leaf, ct_), k_))
+                sel_ = z3.Select(st.array(region, f.leaf, ct_), k_)
+                ex.apply_elem_inv(st, region, f.leaf, k_, sel_)     # the caller's own element invariant, if any
+                f = f.fn(cx, k_, sel_)
             ex.oblig(st, f'pre.{c.short()}.{lab}.L{ex.curline}', f, 'precondition', tags)
         # havoc frame
         for t in c.assigns(cx):
